@@ -148,6 +148,11 @@ class Audit:
                 return a[1]
         if leaf_name(n) and body.local_ty(0) == "bool":
             return "true"
+        if n[0] == "un" and n[1] == "Not" and leaf_name(strip(n[2])) and body.local_ty(0) == "bool":
+            return "false"          # `!*b`: the field is omitted when it is false
+        # a comparison of the value after a lossy cast (`*m as i32 == 1`): true for a whole range of values, only one of which the default reproduces
+        if n[0] == "bin" and n[1] == "Eq" and any(strip(x)[0] == "cast" for x in (n[2], n[3])):
+            return "lossy-cast"
         return None
 
     def container_defaults(self, adt):
@@ -401,6 +406,10 @@ def run_audit(ctx, au, rule="c04"):
                 else:
                     dfn = None
                     dv = {"f32": "0.0", "f64": "0.0", "bool": "false"}.get(f["ty"], "0" if re.match(r"[ui]\d+|usize|isize", f["ty"]) else None)
+                if pc == "lossy-cast":
+                    ctx.violation(rule + ".pair", pkey, "%s compares the value after a cast: every value the cast maps onto the constant is omitted on output, but a missing key "
+                                  "reloads as the one default value %s" % (skip, dv), loc)
+                    continue
                 if pc is None or dv is None:
                     raise AnalysisError("cannot read predicate/default constants for %s (%s / %s)" % (fkey, skip, dflt))
                 if float_eq(pc, dv):
@@ -748,6 +757,24 @@ def ctx_repo(ctx):
     return REPO
 
 
+def check_direct_serialisation(ctx, prog, rule="c04.text"):
+    """"serialising that again yields the identical text": Model::as_json hands the typed model to serde_json's writer.  Going through a generic
+    `serde_json::Value` widens every f32 to f64 on the way (0.7 is then written as 0.699999988079071) and re-orders maps: the text of every shipped file
+    changes although the values reload equal."""
+    f = prog.method("types::model::Model", None, "as_json")
+    names = [callee_name(t) or "" for _, t in f.body.calls()]
+    writers = [n for n in names if short_callee(n) in ("to_string_pretty", "to_string", "to_writer", "to_writer_pretty", "to_vec", "to_vec_pretty") and "serde_json" in n]
+    via = [n for n in names if short_callee(n) in ("to_value", "from_value", "json") and "serde_json" in n]
+    key = rule + "|Model::as_json"
+    if via:
+        ctx.violation(rule, key, "Model::as_json goes through serde_json::%s: f32 fields are widened to f64 before they are printed (0.7 -> 0.699999988079071), so no shipped "
+                      "file re-serialises to its own text" % short_callee(via[0]), f.loc())
+    elif len(writers) == 1:
+        ctx.ok(rule, key, "the typed model goes straight to serde_json::%s" % short_callee(writers[0]), f.loc())
+    else:
+        raise AnalysisError("Model::as_json: the serde_json writer call was not found (%d candidates)" % len(writers))
+
+
 def run(ctx):
     prog = ctx.prog
     model = prog.adt("bemodel::types::model::Model")
@@ -766,6 +793,7 @@ def run(ctx):
     au2.seen = au2.seen - au.seen
     run_audit(ctx, au2, rule="c04ei")
     check_converted_finite(ctx)
+    check_direct_serialisation(ctx, prog)
 
 
 def check_converted_finite(ctx):
